@@ -1,6 +1,8 @@
 package verifsim
 
 import (
+	"path/filepath"
+	"os"
 	"fmt"
 	"sort"
 	"strings"
@@ -100,6 +102,9 @@ func init() {
 			p.Ops = genHistory(r, pf, &p.Cfg)
 			if n%3 == 1 {
 				makeConcurrent(r, p)
+			}
+			if n%7 == 3 {
+				p.Cfg.Extra = map[string]int64{"collide": 1} // two configured keys with one 32-bit key ID
 			}
 			return p
 		},
@@ -280,7 +285,7 @@ func init() {
 				for occ := 0; occ < 3*len(p.Ops); occ++ {
 					for _, call := range []string{"drv.Exec", "drv.Commit", "drv.Rollback"} {
 						if r.Chance(0.08) {
-							p.Faults = append(p.Faults, Fault{At: fmt.Sprintf("c0:%s#%d", call, occ), Kind: "fail"})
+							p.Faults = append(p.Faults, Fault{At: fmt.Sprintf("c0:%s#%d", call, occ), Kind: drvKind(r)})
 						}
 					}
 				}
@@ -416,13 +421,27 @@ func init() {
 					for occ := 0; occ < 3*len(ops); occ++ {
 						for _, call := range []string{"drv.Begin", "drv.Query", "drv.Next", "drv.Exec", "drv.Commit", "drv.Rollback"} {
 							if r.Chance(0.06) {
-								p.Faults = append(p.Faults, Fault{At: fmt.Sprintf("c0:%s#%d", call, occ), Kind: "fail"})
+								p.Faults = append(p.Faults, Fault{At: fmt.Sprintf("c0:%s#%d", call, occ), Kind: drvKind(r)})
 							}
 						}
 					}
 				} else {
 					addFaults(r, p, 0.1)
 				}
+			}
+			if n%8 == 5 {
+				// the witness is restarted between the prior history and the probes, and its clock was set back in between
+				// (every simulated run starts at the same instant; time passes during the prior history)
+				p.Cfg.Store, p.Cfg.Seam, p.Cfg.Clients = "sqlite", "none", 1
+				p.Faults = nil
+				delete(p.Cfg.Extra, "tail_from")
+				p.Cfg.Extra["clockback"] = 1
+				var withTime []Op
+				for _, o := range ops {
+					withTime = append(withTime, Op{K: "jump", Ms: int64(Pick(r, 1, 999, 1000, 1500, 60000, 3600000, 86400000))}, o)
+				}
+				p.Ops = withTime
+				p.Cfg.Extra["probe_from"] = int64(len(withTime))
 			}
 			for l := range p.Cfg.Logs {
 				k := r.Range(1, 3)
@@ -447,6 +466,9 @@ func init() {
 			return p
 		},
 		Run: func(t *testing.T, p *Plan) *Outcome {
+			if p.Cfg.Extra["clockback"] != 0 {
+				return c08ClockBack(t, p)
+			}
 			res, out := baseOutcome(t, p, true)
 			if len(out.Infra) > 0 {
 				return out
@@ -491,6 +513,45 @@ func init() {
 		Components:  engineWComponents,
 		Assumptions: []string{"'honest log' = a branch of the harness's forking log whose root at the stored size equals the stored root; if the witness holds a garbage root no honest probe exists and none is sent"},
 	})
+}
+
+// c08ClockBack runs the prior history on a file-backed store, then the probes on a witness restarted on that file in a
+// fresh simulation whose clock starts again at the initial instant, i.e. earlier than the times the stored cosignatures carry.
+func c08ClockBack(t *testing.T, p *Plan) *Outcome {
+	dir, err := os.MkdirTemp(scratchRoot, "verifsim-c08-")
+	if err != nil {
+		return &Outcome{Stats: newStats(), Infra: []string{err.Error()}}
+	}
+	defer os.RemoveAll(dir)
+	from := int(p.Cfg.Extra["probe_from"])
+	if from > len(p.Ops) {
+		from = len(p.Ops)
+	}
+	q1 := p.Clone()
+	q1.Cfg.DBPath = filepath.Join(dir, "w.db")
+	q1.Ops = append([]Op{}, p.Ops[:from]...)
+	_, out1 := baseOutcome(t, q1, true)
+	if len(out1.Infra) > 0 || len(out1.Viol) > 0 {
+		return out1
+	}
+	q2 := p.Clone()
+	q2.Cfg.DBPath = q1.Cfg.DBPath
+	q2.Ops = append([]Op{}, p.Ops[from:]...)
+	res, out := baseOutcome(t, q2, true)
+	out.Events = append(out1.Events, out.Events...)
+	out.Stats.SimNanos += out1.Stats.SimNanos
+	if len(out.Infra) > 0 {
+		return out
+	}
+	out.Viol = append(out.Viol, oracleC08(res, 0)...)
+	for _, r := range res.Hist {
+		if r.Op.K == "update" && r.StBefore.Has && !r.Req.NoHonest {
+			out.Stats.Probes["honest_probes_after_restart_with_clock_set_back"]++
+			out.Distinct = append(out.Distinct, "clockback/"+r.Class)
+		}
+	}
+	out.Stats.Fired["restart_with_clock_set_back"]++
+	return out
 }
 
 // ---------------------------------------------------------------- C05
@@ -587,10 +648,11 @@ func overlaps(a, b *OpRec) bool { return a.Invoke < b.Return && b.Invoke < a.Ret
 
 func oracleC05(res *RunResult, stats *Stats) []Violation {
 	var out []Violation
+	long := len(res.Hist) > 400 // long histories: the direct invariants only (they are linear in the history)
 	// which updates overlapped another write to the same log (only those may fail with a storage error)
 	overlapped := map[int]bool{}
 	for _, r := range res.Hist {
-		if r.Op.K != "update" {
+		if r.Op.K != "update" || long {
 			continue
 		}
 		for _, q := range res.Hist {
@@ -639,22 +701,29 @@ func oracleC05(res *RunResult, stats *Stats) []Violation {
 			prev = cur
 		}
 	}
+	committed := map[int]bool{}
+	for _, s := range res.Sets {
+		committed[s.OpIdx] = true
+	}
+	// nothing the store took is lost: at the end each log holds the last write the store reported as done
+	if fs := res.FinalSnap; fs != nil && fs.Err == "" {
+		for id, seq := range byLog {
+			if ld := res.W.LogByID(id); ld != nil && fs.CP[id] != string(seq[len(seq)-1].Bytes) {
+				out = append(out, Violation{Class: "lost_update", Sig: "final_state_is_not_last_write", OpIdx: seq[len(seq)-1].OpIdx,
+					Detail: fmt.Sprintf("log %d: the last write the store reported as done (op %d) was {%s}, but at the end the store holds {%s}", ld.Idx, seq[len(seq)-1].OpIdx, cpBrief(parseStored(seq[len(seq)-1].Bytes)), cpBrief(parseStored([]byte(fs.CP[id]))))})
+			}
+		}
+	}
 	for _, r := range res.Hist {
 		if r.Op.K == "update" && r.Class == "accept" {
-			found := false
-			for _, s := range res.Sets {
-				if s.OpIdx == r.Idx {
-					found = true
-				}
-			}
-			if !found {
+			if !committed[r.Idx] {
 				out = append(out, Violation{Class: "lost_update", Sig: "accepted_without_commit", OpIdx: r.Idx, Detail: fmt.Sprintf("op %d reported accepted but no write reached the store", r.Idx)})
 			}
 		}
 	}
 	// readers never see a log shrink (real-time order)
 	for _, a := range res.Hist {
-		if a.Op.K != "read" || a.Err != nil {
+		if a.Op.K != "read" || a.Err != nil || long {
 			continue
 		}
 		for _, b := range res.Hist {
@@ -668,7 +737,7 @@ func oracleC05(res *RunResult, stats *Stats) []Violation {
 			}
 		}
 	}
-	if len(out) > 0 {
+	if len(out) > 0 || long {
 		return out
 	}
 	// (a) linearizability against the sequential model
@@ -680,9 +749,12 @@ func oracleC05(res *RunResult, stats *Stats) []Violation {
 		cid := clientIndex(r.Task)
 		switch r.Op.K {
 		case "update":
-			ops = append(ops, porcupine.Operation{ClientId: cid, Input: linIn{Kind: "update", LogID: r.Req.LogID, Req: r.Req, Overlapped: overlapped[r.Idx]},
+			ops = append(ops, porcupine.Operation{ClientId: cid, Input: linIn{Kind: "update", LogID: r.Req.LogID, Req: r.Req, Overlapped: overlapped[r.Idx] || len(r.Fired) > 0}, // an injected storage fault, like contention, may fail the update with no effect
 				Call: int64(r.Invoke), Output: linOut{Class: r.Class, Out: string(r.Out)}, Return: int64(r.Return)})
 		case "read":
+			if r.Err != nil && len(r.Fired) > 0 {
+				continue // a read that failed on an injected storage fault returned nothing and changed nothing
+			}
 			o := linOut{Class: "ok", Out: string(r.Out)}
 			if r.Err != nil {
 				o = linOut{Class: "err", NotFound: isNotFound(r.Err)}
@@ -743,6 +815,21 @@ func init() {
 			makeConcurrent(r, p)
 			for i := 0; i < pre; i++ {
 				p.Ops[i].C = 0
+			}
+			if n%8 == 7 {
+				// storage errors instead of contention: one client on SQLite with faults inside the database driver; an update the
+				// store failed must have no effect, one it acknowledged must not be lost
+				p.Cfg.Store, p.Cfg.Seam, p.Cfg.Clients, p.Cfg.Strategy = "sqlite", "driver", 1, "uniform"
+				for i := range p.Ops {
+					p.Ops[i].C = 0
+				}
+				for occ := 0; occ < 2*len(p.Ops); occ++ {
+					for _, call := range []string{"drv.Begin", "drv.Query", "drv.Next", "drv.Exec", "drv.Commit", "drv.Commit", "drv.Rollback"} {
+						if r.Chance(0.07) {
+							p.Faults = append(p.Faults, Fault{At: fmt.Sprintf("c0:%s#%d", call, occ), Kind: drvKind(r)})
+						}
+					}
+				}
 			}
 			// racing clients that computed their requests from the same old size
 			if r.Chance(0.5) && pre > 0 {
@@ -821,6 +908,9 @@ func init() {
 			}
 			p.Ops = genHistory(r, pf, &p.Cfg)
 			for i := range p.Ops {
+				if p.Ops[i].M == "prime_other" {
+					p.Ops[i].M = "wrongkey"
+				}
 				if p.Ops[i].M == "crosslog" || p.Ops[i].M == "unknownlog" {
 					// keep cross-log replays self-contained: absolute sizes, so the bytes do not depend on another log's state
 					p.Ops[i].Sz, p.Ops[i].Old, p.Ops[i].P = "abs", "zero", "empty"
